@@ -612,6 +612,14 @@ func connectExtractTimeout(headers http.Header, meta *requestMeta) error {
 	if str == "" {
 		return nil
 	}
+	if len(str) > 10 { // the value is an ASCII string of at most 10 digits
+		return fmt.Errorf("timeout header %q is too long", str)
+	}
+	for i := range len(str) {
+		if str[i] < '0' || str[i] > '9' { // no sign, no other characters
+			return fmt.Errorf("timeout header %q is not a number", str)
+		}
+	}
 	timeoutInt, err := strconv.ParseInt(str, 10, 64)
 	if err != nil {
 		return err
